@@ -308,7 +308,7 @@ class Fn:
                         p = st['p']
                         if not p['pr']:
                             d[p['l']].append((bi, si, st['rv']))
-                        else:
+                        elif p['pr'][0] != '*':
                             partial[p['l']].append((bi, si, st))
                         rv = st['rv']
                         if rv['k'] in ('ref', 'rawptr') and rv.get('mut') and '*' not in rv['p']['pr']:
@@ -320,7 +320,7 @@ class Fn:
                     p = t['dest']
                     if not p['pr']:
                         d[p['l']].append((bi, 'term', t))
-                    else:
+                    elif p['pr'][0] != '*':
                         partial[p['l']].append((bi, 'term', t))
             self._defs = d
             self.partial = partial
